@@ -128,16 +128,26 @@ def scan_c10(repo):
 
 
 def scan_c20(repo):
-    """every compile_* statement/expression entry point sets the current span before emitting (informational)"""
+    """(a) informational: set_span / emit site counts;  (b) syntactic side obligation: every function-body compiler
+    created in compile_* (`Compiler::new()`) hands the source file on (`set_source_file` within the next 12 lines)
+    - otherwise the frames of those functions name no file (defect 5b859d5).  Flagged sites are reported as
+    unverified, never as a violation (the battery's call shapes give the failing program)."""
     n_set = n_emit = 0
+    flagged = []
     for rel in ('src/compiler/compile_expr.rs', 'src/compiler/compile_stmt.rs', 'src/compiler/compile_pattern.rs'):
         p = os.path.join(repo, rel)
         if os.path.exists(p):
             t = open(p).read()
             n_set += len(re.findall(r'\.set_span\(', t))
             n_emit += len(re.findall(r'\.emit\(', t))
-    return {'rule': 'informational: number of set_span / emit sites in compile_* (the set_span discipline itself is not verifiable here)',
-            'set_span_sites': n_set, 'emit_sites': n_emit, 'flagged_sites': []}
+            lines = t.split('\n')
+            for i, l in enumerate(lines):
+                if re.search(r'\bCompiler::new\(\)', l) and 'let mut' in l:
+                    if not any('set_source_file' in x for x in lines[i:i + 13]):
+                        flagged.append('%s:%d function-body compiler created without set_source_file' % (rel, i + 1))
+    return {'rule': 'function-body compilers propagate the source file (syntactic); set_span / emit counts are informational '
+                    '(the set_span discipline itself is only tested by the battery)',
+            'set_span_sites': n_set, 'emit_sites': n_emit, 'flagged_sites': flagged}
 
 
 SCANS = {'C15': scan_c15, 'C10': scan_c10, 'C20': scan_c20}
